@@ -14,20 +14,13 @@ predicate.  Decided: `used` and `assigned` are exactly the expected sets for eve
 
 from __future__ import annotations
 
-import ast
-
+from ..absint.astmodel import N, VisitorEval, names_in
 from ..absint.minieval import Unsupported
-from ..absint.pyeval import PyEval, Raised, Tok
+from ..absint.pyeval import Raised, Tok
 from ..report import Ctx
 
 MOD = "guppylang_internals.cfg.bb"
 _n = [0]
-
-
-def N(cls: str, **fields) -> Tok:
-    _n[0] += 1
-    order = fields.pop("_order", tuple(fields))
-    return Tok(f"{cls}#{_n[0]}", __class__=cls, __bases__=("AST",), __ast__=True, _fields=tuple(order), __ident__=1, **fields)
 
 
 def name(x):
@@ -42,61 +35,8 @@ def call(f, *args):
     return N("Call", func=name(f), args=list(args), keywords=[])
 
 
-def _is_ast(v) -> bool:
-    return isinstance(v, Tok) and v.attrs.get("__ast__") is True
-
-
-def names_in(node) -> list:
-    out = []
-    if _is_ast(node):
-        if node.attrs["__class__"] == "Name":
-            out.append(node)
-        for f in node.attrs["_fields"]:
-            v = node.attrs.get(f)
-            for x in (v if isinstance(v, list) else [v]):
-                out.extend(names_in(x))
-    return out
-
-
-class VisitorEval(PyEval):
-    """PyEval + the ast.NodeVisitor protocol for tokens marked `__visitor__`."""
-
-    def call(self, node, env):
-        if isinstance(node.func, ast.Attribute) and node.func.attr in ("visit", "generic_visit") and len(node.args) == 1:
-            recv = self.ev(node.func.value, env)
-            if isinstance(recv, Tok) and recv.attrs.get("__visitor__"):
-                return self.visit_node(recv, self.ev(node.args[0], env), env, generic=node.func.attr == "generic_visit")
-        return super().call(node, env)
-
-    def visit_node(self, recv, n, env, generic=False):
-        if not _is_ast(n):
-            raise Unsupported(f"visit of {n!r}")
-        if not generic:
-            for c in recv.attrs["__classes__"]:
-                m = c.methods.get("visit_" + n.attrs["__class__"])
-                if m is not None:
-                    if self.depth >= self.max_depth:
-                        raise Unsupported("visitor depth")
-                    ps = [a.arg for a in m.node.args.args]
-                    new = {k: v for k, v in env.items() if callable(v)}
-                    new[ps[0]], new[ps[1]] = recv, n
-                    self.depth += 1
-                    try:
-                        out = self.run(m.node.body, new)
-                    finally:
-                        self.depth -= 1
-                    if out[0] == "raise":
-                        raise Raised(f"visit_{n.attrs['__class__']}: {out[1]}", str(out[1]))
-                    return out[1] if out[0] == "return" else None
-        for f in n.attrs["_fields"]:
-            v = n.attrs.get(f)
-            for x in (v if isinstance(v, list) else [v]):
-                if _is_ast(x):
-                    self.visit_node(recv, x, env)
-        return None
-
-
 def _inner_cfg(live: list[str]) -> Tok:
+    _n[0] += 1
     ibb = Tok(f"inner_bb{_n[0]}", __ident__=1)
     ibb.attrs["vars"] = Tok("inner_vars", used={x: name(x) for x in live})
     ibb.attrs["__live__"] = {x: ibb for x in live}
